@@ -1,0 +1,9 @@
+//go:build verif
+
+package fs
+
+// Wrappers for the verification harness of property C18 (build tag verif
+// only). They add no behaviour.
+
+// VerifSanitizePath exposes sanitizePath.
+func VerifSanitizePath(base, p string) (string, error) { return sanitizePath(base, p) }
